@@ -575,35 +575,36 @@ def reason_key(r):
     return re.sub(r"[0-9a-f]{6,}|\d+", "N", r.split(":")[0])[:48]
 
 
-def shrink(prop, case, still_fails, workdir, budget=12):
-    """Greedy line removal, evaluated in batches. `still_fails(list of cases) -> list of bool`."""
+def shrink(prop, case, still_fails, workdir, budget=12, seconds=45):
+    """ddmin over the removable lines: chunks of decreasing size, evaluated in batches; bounded in time.
+    `still_fails(list of cases) -> list of bool`."""
     cur = case
+    t0 = time.time()
     rounds = 0
-    while rounds < budget:
+    chunk = None
+    while rounds < 4 * budget and time.time() - t0 < seconds:
         rounds += 1
         idxs = prop.shrink_lines(cur)
         if not idxs:
             break
+        if chunk is None or chunk > len(idxs):
+            chunk = max(1, len(idxs) // 2)
         cands = []
-        for k, i in enumerate(idxs):
-            c = cur.copy(lines=cur.lines[:i] + cur.lines[i + 1:])
+        for k in range(0, len(idxs), chunk):
+            drop = set(idxs[k:k + chunk])
+            c = cur.copy(lines=[l for j, l in enumerate(cur.lines) if j not in drop])
             c.id = f"{case.id}_s{rounds}_{k}"
             cands.append(c)
-        # also try dropping halves first
-        if len(idxs) >= 8:
-            half = set(idxs[: len(idxs) // 2])
-            c = cur.copy(lines=[l for j, l in enumerate(cur.lines) if j not in half])
-            c.id = f"{case.id}_s{rounds}_h"
-            cands.insert(0, c)
-        res = still_fails(cands)
-        progressed = False
-        for c, bad in zip(cands, res):
-            if bad:
-                cur = c
-                progressed = True
+            if len(cands) >= 24:
                 break
-        if not progressed:
+        res = still_fails(cands)
+        hit = next((c for c, bad in zip(cands, res) if bad), None)
+        if hit is not None:
+            cur = hit
+        elif chunk == 1:
             break
+        else:
+            chunk = max(1, chunk // 2)
     cur.id = case.id + "_min"
     return cur
 
